@@ -123,7 +123,8 @@ def make(features, route):
         except Exception as e:  # noqa  (C11 territory)
             return None, sm, "sdl-unbuildable:%s" % type(e).__name__
     smi = G.with_internals(sm)
-    s = M.sm_to_code(smi)
+    # route "code1": a single value standing for a list default is passed to the constructors UNWRAPPED
+    s = M.sm_to_code(smi, unwrapped_singles=(route == "code1"))
     s.validate()
     return s, smi, None
 
@@ -282,7 +283,7 @@ def check_standard(schema, model, include_deprecated, generic, st=None, blocking
                 seen.add(cls)
                 out.append((cls, "defaultValue %r of %s does not coerce to %s: %s" % (text, path, declared["type"], e)))
             continue
-        if val != declared["default"]:
+        if val != M.wrap_canon(declared["default"], CL.T(declared["type"])):  # (a single value for a list type denotes the one-item list)
             cls = "default-differs:%s/lit=%s" % (kind, lit[0])
             if cls not in seen:
                 seen.add(cls)
@@ -489,13 +490,15 @@ def cases(tier):
             continue
         yield {"features": fs, "route": "sdl", "tier": tier}
         yield {"features": fs, "route": "code+", "tier": tier}
+        if "d:list-single" in fs or "d:list" in fs or "d:obj" in fs:
+            yield {"features": fs, "route": "code1", "tier": tier}
 
 
 def check_case(case, st):
     sm = G.build_sm(case["features"])
     if case["route"] == "sdl-or-code+":
         case = dict(case, route="sdl" if make(case["features"], "sdl")[0] is not None else "code+")
-    if case["route"] == "code+" and len(case["features"]) > 0 and not _has_code_facets(sm):
+    if case["route"] in ("code+", "code1") and len(case["features"]) > 0 and not _has_code_facets(sm):
         st.n("code_route_skipped_no_code_facets")
         return []
     out = []
